@@ -283,9 +283,16 @@ func (g *gctx) directedClosedSibling() history {
 		rem -= a
 	}
 	// some of them are closed / closing by the queue controller
-	closed := []int64{}
+	// ... or deleted while carrying a finalizer: the DELETE is admitted, the queue lingers as terminating
+	closed, lingering := []int64{}, []int64{}
 	for _, id := range kids {
-		if r.Chance(2, 3) || len(closed) == 0 && id == kids[len(kids)-1] {
+		if r.Chance(2, 3) || len(closed)+len(lingering) == 0 && id == kids[len(kids)-1] {
+			if r.Chance(1, 3) {
+				do(request{kEnv, qspec{name: id, alloc: 0, state: -1}})
+				do(request{kDeleteFin, qspec{name: id}})
+				lingering = append(lingering, id)
+				continue
+			}
 			st := int64(vh.Pick(r, []int{2, 2, 2, 2, 2, 2, 3, 3, 4, 1}))
 			do(request{kEnv, qspec{name: id, alloc: -1, state: st}})
 			closed = append(closed, id)
@@ -308,6 +315,15 @@ func (g *gctx) directedClosedSibling() history {
 		id := vh.Pick(r, kids)
 		cur, _ := st[id].des.get(2)
 		do(request{kUpdate, mkq(id, parent, cur+amt)})
+	}
+	// the parent cannot be deleted while a terminating child is still there
+	if len(lingering) > 0 && r.Chance(1, 2) {
+		do(request{vh.Pick(r, []int64{kDelete, kDeleteFin}), qspec{name: parent}})
+	}
+	for _, id := range lingering {
+		if r.Chance(2, 3) {
+			do(request{kGone, qspec{name: id}})
+		}
 	}
 	// re-opened: no resource field changes, nothing is re-validated
 	for _, id := range closed {
